@@ -1804,6 +1804,7 @@ def inline_math_comprehensions(source: str) -> str:
     root = core.parse(source)
 
     replacements = {}
+    replacement_assignments = {}
     blacklist = set()
 
     assign_template = ast.Assign(targets=[core.Wildcard("target", ast.Name)])
@@ -1860,11 +1861,17 @@ def inline_math_comprehensions(source: str) -> str:
                         blacklist.add(use)
                     else:
                         replacements[use] = value
+                        replacement_assignments[use] = assignment
                     break
 
     for assignment in blacklist:
         if assignment in replacements:
             del replacements[assignment]
+
+    # The assignment may have more uses in another scope than the one of the replaced use
+    for use, assignment in replacement_assignments.items():
+        if assignment in blacklist and use in replacements:
+            del replacements[use]
 
     yield from replacements.items()
 
